@@ -957,6 +957,10 @@ def solve_query(text, timeout, workdir, tag):
     for name, p in procs:
         if p.poll() is None:
             p.kill()
+        try:
+            p.wait(timeout=5)
+        except Exception:
+            pass
     if result[0] == 'unknown':
         result = ('unknown', None, time.time() - t0, '')
     return result
